@@ -279,6 +279,44 @@ func c01Exec(c fw.Case) *fw.Result {
 		key := fmt.Sprintf("C01/header/%s/only%v/zero%v", part, only, zero)
 		c01Check(res, f, procs, 0, key)
 		res.Eval(fmt.Sprintf("header/%s/only%v/zero%v", part, only, zero))
+	case "limits":
+		// sizes exactly at the format's hard limits are valid: a BlobHeader of up to 65535
+		// bytes ("must be less than 64 KiB") and a Blob of up to 32 MiB - 1 bytes; also the
+		// soft limits (32 KiB, 16 MiB) on both sides. The block in question sits between two
+		// ordinary blocks so that its neighbours would show any damage.
+		r := gen.New(c.Seed, "c01limits")
+		f := pbfw.GenFile(r, pbfw.GenOpts{MinBlocks: 3, MaxBlocks: 3, MaxGroups: 2, MaxElems: 8})
+		b := f.Blocks[1]
+		b.Zlib = c.Int("zlib") == 1
+		b.ZlibLevel = 1
+		b.PadBytes = int(c.Int("pad"))
+		target := c.Int("size")
+		measure := func() int64 {
+			_, lay := f.Encode(nil)
+			if c.Str("what") == "blobheader" {
+				return lay.BlobHeaderEnd[1] - lay.PrefixEnd[1]
+			}
+			return lay.End[1] - lay.BlobHeaderEnd[1]
+		}
+		for it := 0; it < 8; it++ {
+			d := target - measure()
+			if d == 0 {
+				break
+			}
+			if c.Str("what") == "blobheader" {
+				b.IndexBytes += int(d)
+			} else {
+				b.PadBytes += int(d)
+			}
+		}
+		key := fmt.Sprintf("C01/limits/%s/%d/zlib%d", c.Str("what"), target, c.Int("zlib"))
+		if got := measure(); got != target && !b.Zlib {
+			res.Inconc(fmt.Sprintf("could not build a %s of exactly %d bytes (got %d)", c.Str("what"), target, got))
+			break
+		}
+		c01Check(res, f, procs, 0, key)
+		res.Eval(fmt.Sprintf("limits/%s/%d/zlib%d", c.Str("what"), target, c.Int("zlib")))
+		res.Sample = map[string]any{"what": c.Str("what"), "bytes": target, "zlib": c.Int("zlib"), "procs": procs}
 	case "random":
 		r := gen.New(c.Seed, "c01random")
 		o := pbfw.GenOpts{MinBlocks: 1, MaxBlocks: 12, MaxGroups: 4, MaxElems: 40}
@@ -375,6 +413,19 @@ func c01Cases(tier string, seed uint64) []fw.Case {
 				}
 			}
 		}
+		if vi == 0 {
+			li := 0
+			for _, sz := range []int64{32767, 32768, 65534, 65535} {
+				cs = append(cs, fw.Case{Kind: "limits", Variant: v, Seed: gen.Sub(seed, "c01lim", li), P: map[string]int64{"size": sz, "zlib": int64(li % 2), "procs": int64(1 + li%3)}, S: map[string]string{"what": "blobheader"}})
+				li++
+			}
+			for _, sz := range []int64{16<<20 - 1, 16 << 20, 16<<20 + 1, 32<<20 - 2, 32<<20 - 1} {
+				cs = append(cs, fw.Case{Kind: "limits", Variant: v, Seed: gen.Sub(seed, "c01lim", li), P: map[string]int64{"size": sz, "zlib": 0, "procs": int64(1 + li%3)}, S: map[string]string{"what": "blob"}})
+				li++
+			}
+			// a compressed blob whose uncompressed size is far above the soft limit
+			cs = append(cs, fw.Case{Kind: "limits", Variant: v, Seed: gen.Sub(seed, "c01lim", li), P: map[string]int64{"size": 40000, "zlib": 1, "procs": 2, "pad": 24 << 20}, S: map[string]string{"what": "blob"}})
+		}
 		n := 260
 		if tier == "thorough" {
 			n = 3000
@@ -435,7 +486,7 @@ func init() {
 		ID:    "C01",
 		Level: "exploration",
 		Rule: "files written by the independent PBF writer: (a) systematic present/absent toggles of each of 33 optional parts between consecutive blocks on the same decoder, consecutive groups of a block and consecutive elements of a group, each header field alone and all-but-it; " +
-			"(b) PRNG files of 1-40 blocks, 1-4 groups, 0-40 elements (plus a few files with up to 9000 elements per group, the size class of real extracts), arbitrary UTF-8, header bounding boxes whose four corners are independent numbers (one hemisphere, left > right, bottom > top), granularity/offset/date-granularity classes, raw and zlib, shuffled field order and string table, unknown fields; a fifth of the files with unusual-but-valid values (ids zero / negative / beyond 2^40 / repeated / unsorted, versions uids changesets at the ends of their types, strings of up to 70 kB, 300 tags, 2000 refs, 3000 members, duplicate tag keys) and a tenth in which every block is followed by a structural twin with different values or by an exact copy; decoder counts {1,2,3,5,16,32} and the degenerate 0 / -1 (one decoder), nil context, chunked readers; both zlib back-ends (cgo/czlib and pure Go). " +
+			"(b) PRNG files of 1-40 blocks, 1-4 groups, 0-40 elements (plus a few files with up to 9000 elements per group, the size class of real extracts), arbitrary UTF-8, header bounding boxes whose four corners are independent numbers (one hemisphere, left > right, bottom > top), granularity/offset/date-granularity classes, raw and zlib, shuffled field order and string table, unknown fields; a fifth of the files with unusual-but-valid values (ids zero / negative / beyond 2^40 / repeated / unsorted, versions uids changesets at the ends of their types, strings of up to 70 kB, 300 tags, 2000 refs, 3000 members, duplicate tag keys) and a tenth in which every block is followed by a structural twin with different values or by an exact copy; blocks whose BlobHeader is exactly 32767 / 32768 / 65534 / 65535 bytes and whose Blob is exactly 16 MiB ± 1, 32 MiB − 2 and 32 MiB − 1 bytes (the hard limits are exclusive), a compressed blob inflating to 24 MiB; decoder counts {1,2,3,5,16,32} and the degenerate 0 / -1 (one decoder), nil context, chunked readers; both zlib back-ends (cgo/czlib and pure Go). " +
 			"A signature is the presence-bit/parameter-class vector of a block with >=1 element, or the toggled part and level; distinct_nontrivial counts distinct signatures.",
 		Assumptions: []string{
 			"an absent timestamp may be delivered as Go's zero time or as the Unix epoch (both are zero metadata); generated present timestamps are never 0",
